@@ -565,6 +565,16 @@ func (vc *VC) callByContract(st *State, spec *FuncSpec, callee *types.Func, sig 
 		st.dead = true
 	}
 	vc.usedSpecs[spec.Pkg+"::"+spec.Key] = true
+	if vc.quiet == 0 && vc.pure == 0 {
+		cr := map[string]Term{}
+		for i, r := range rets {
+			cr[fmt.Sprintf("callresult%d", i)] = r
+			if len(rets) == 1 {
+				cr["callresult"] = r
+			}
+		}
+		vc.anchors([]*State{st}, "aftercall_"+callee.Name(), nil, cr)
+	}
 	return rets
 }
 
